@@ -200,7 +200,7 @@ def make_world(seed, kind):
     if kind == "events":
         return c14.event_world(seed, twins=False), False      # exact positional ties are outside the quantifier of C11
     if kind == "noise-free":
-        w = world2.rich_world(seed, n_chroms=3, genes_per_chrom=3, reads_per_t=0, hidden_cov=0, multimappers=False, unmapped=0)
+        w = world2.rich_world(seed, n_chroms=3, genes_per_chrom=3, reads_per_t=0, hidden_cov=0, multimappers=False, unmapped=0, extra_len=60000)
         rng = w.rng
         # unannotated isoforms whose first (last) exon begins (ends) in the middle of an intron of the annotated isoform, on both strands:
         # the left-hand and the right-hand version are mirror images of each other
@@ -222,6 +222,46 @@ def make_world(seed, kind):
                     w.plant_sites(chrom, intr, strand)
                 w.genes.append(g)
                 p += 3400 + 2500
+        # unannotated isoforms that differ from an annotated one by ONE acceptor / donor moved by 25 bp (reported as a minor difference of the
+        # annotated isoform): their full-length path is substituted with that isoform, before or after the isoform's own path
+        for ci, chrom in enumerate(w.chrom_order):
+            p = max([g.end for g in w.genes if g.chrom == chrom] + [1000]) + 2500
+            for k, (strand, side) in enumerate((("+", "L"), ("-", "L"), ("+", "R"), ("-", "R"))):
+                if p + 6000 > w.chrom_len(chrom):
+                    break
+                a = [(p, p + 130), (p + 640, p + 921), (p + 1790, p + 2160), (p + 2831, p + 3133)]
+                b = list(a)
+                if side == "L":
+                    b[1] = (a[1][0] + 25, a[1][1])
+                else:
+                    b[2] = (a[2][0], a[2][1] - 25)
+                g = Gene("SH%d_%d" % (ci + 1, k + 1), chrom, strand)
+                g.transcripts.append(Transcript(g.id + ".t1", g.id, chrom, strand, a, True, "shifted-site-host"))
+                g.hidden.append(Transcript(g.id + ".h1", g.id, chrom, strand, b, False, "site-moved-by-25"))
+                for intr in g.transcripts[0].introns + g.hidden[0].introns:
+                    w.plant_sites(chrom, intr, strand)
+                w.genes.append(g)
+                p += 3200 + 2500
+        # annotated isoforms that share ONE intron chain: t2 = t1 cut at an alternative polyA site, t3 = last intron of t1 retained
+        for ci, chrom in enumerate(w.chrom_order):
+            p = max([g.end for g in w.genes if g.chrom == chrom] + [1000]) + 2500
+            for k, strand in enumerate("+-"):
+                if p + 6000 > w.chrom_len(chrom):
+                    break
+                a = [(p, p + 205), (p + 748, p + 953), (p + 1961, p + 2104), (p + 2862, p + 2993)]
+                if strand == "-":
+                    a = sorted((2 * p + 2993 - e, 2 * p + 2993 - s_) for s_, e in a)
+                g = Gene("SC%d_%d" % (ci + 1, k + 1), chrom, strand)
+                if strand == "+":
+                    variants = [a, a[:3], a[:2] + [(a[2][0], a[3][1])]]
+                else:
+                    variants = [a, a[1:], [(a[0][0], a[1][1])] + a[2:]]
+                for vi, ex in enumerate(variants):
+                    g.transcripts.append(Transcript("%s.t%d" % (g.id, vi + 1), g.id, chrom, strand, ex, True, "shared-intron-chain"))
+                for intr in g.transcripts[0].introns:
+                    w.plant_sites(chrom, intr, strand)
+                w.genes.append(g)
+                p += 3000 + 2500
         for g in w.genes:
             for t in g.transcripts:
                 for _ in range(5):
